@@ -20,7 +20,7 @@ META = dict(
     level='proof',
     technique='Coq proof about a transcription of auto_xact_t::extend_xact / post_pred / xact_base_t::verify / the add_xact rule loop (extension = input ++ concat_map over the matching non-generated postings; generated postings never re-match for any number and order of rules; rules only reach later transactions; exact multiplication; the memoised quick matcher equals the full predicate; unbalanced extension rejected) + differential correspondence against ledger',
     level_text='Theorems in coq/Properties/Properties_C16.v are stated for the executable model of extend_xact (snapshot loop skipping ITEM_GENERATED postings, quick matcher with memo and fallback, amount multiply/copy, flags and state of the new posting, verify when a new posting must balance) inside the journal loop that keeps the rule list in file order and applies it after finalize. The model is tied to the code by running whole generated journals through ledger and through the extracted model and comparing, per transaction, acceptance and error class and, per posting, account, kind, exact rational amount and precision counter, cost, flags and state.',
-    level_note='Known finding F22 (Properties_C16.elided_commodity_postings_extended_refuted): the postings finalize makes for the second and later commodities of an elided amount carry ITEM_GENERATED and are skipped by rules; the model is faithful to that. Trusted as C01 (finalize is the C01/C02 model). Regular expressions are restricted to literal, case-insensitive substrings; predicates to account / payee matches and `amount < LIT`, `amount > LIT` under ! & |. Not modelled: rule lines with costs or amount expressions, `$account` and %(format) account names, notes/tags and assert/check lines of a rule, --strict/--pedantic, period transactions.',
+    level_note='Known finding F33 (Properties_C16.elided_commodity_postings_extended_refuted): the postings finalize makes for the second and later commodities of an elided amount carry ITEM_GENERATED and are skipped by rules; the model is faithful to that. Trusted as C01 (finalize is the C01/C02 model). Regular expressions are restricted to literal, case-insensitive substrings; predicates to account / payee matches and `amount < LIT`, `amount > LIT` under ! & |. Not modelled: rule lines with costs or amount expressions, `$account` and %(format) account names, notes/tags and assert/check lines of a rule, --strict/--pedantic, period transactions.',
     design_ref='DESIGN.md section 7 C16',
     assumptions=['commodities $ EUR AAA CCC in plain styles, every amount written with its commodity\'s usual number of decimals',
                  'account and payee patterns are literal alphanumeric substrings (regex = case-insensitive substring)',
@@ -648,7 +648,7 @@ def oracle(res, items, text, rows, rejected, base_rows, base_rejected):
             res.count('oracle:undetermined-predicate')
             i += 1
             continue
-        # the same, counting the postings finalize made from an elided amount as postings (finding F22)
+        # the same, counting the postings finalize made from an elided amount as postings (finding F33)
         ext_text = expected_extension(rules_seen, payee, base, skip_finalize_generated=False)
         variants = [ext] + ([ext_text] if ext_text is not None and ext_text != ext else [])
         noamt = [e for e in ext if e[1] == 'NOAMOUNT']
@@ -698,7 +698,7 @@ def oracle(res, items, text, rows, rejected, base_rows, base_rejected):
         if norm(have) == norm(want_text):
             ext = ext_text if ext_text is not None else ext
         elif norm(have) == norm(want):
-            # finding F22: exactly the postings for the finalize-made part of an elided amount are missing
+            # finding F33: exactly the postings for the finalize-made part of an elided amount are missing
             res.violations.append(dict(key='elided-commodity-posting-not-matched',
                                        desc='a posting made by finalize for the second commodity of an elided amount matches a rule but received no postings',
                                        case=case, observed=[str(h) for h in have], required=[str(w) for w in want_text]))
